@@ -58,6 +58,15 @@ CLAIMED = {
        'CloudStorage over a fake object store), sequential and with overlapped operations on different ids.',
   ref='6/C15', technique='Lean 4 proof (simulation/refinement between store representations) + differential correspondence vs the four real backends',
   note='The redis server and the cloud object store are stand-ins written from the client library / aws.py source.'),
+ 'C13': dict(
+  text='Lean theorems over Model/Attempt.lean (Queue._attempt / _handle_partial_relay / _retry_later / _perm_fail / _split_by_reply): for every '
+       'list of per-recipient failures the bounces have pairwise different replies, every reply has its bounce, a bounce names only and at least one '
+       'recipient that failed with its reply, and all failed recipients are named exactly once; for every attempt outcome the bounces name exactly '
+       'the finally-failed recipients; a null-sender message (hence every bounce) never produces a bounce; a factory returning None produces none. '
+       'Byte-level bounce content (addressed to the original sender only, reply quoted, original header block/body embedded unchanged, handed to '
+       'bounce_queue.enqueue) is checked on the real Bounce/Queue by the campaign; the real Queue is driven through failure histories and compared '
+       'round by round with the model.',
+  ref='6/C13', technique='Lean 4 proof (grouping lemmas, case analysis over attempt outcomes) + differential correspondence vs real Queue/Bounce histories'),
 }
 def main():
     props = [json.loads(l) for l in open(os.path.join(V, 'properties.jsonl'))]
